@@ -467,3 +467,36 @@ Proof.
   split; [exact P|]. split; [exact N1|]. split; [exact N2|]. split; [exact G|].
   unfold from_json, to_json_tree, to_json_tree_direct, py_getitem, py_in. rewrite !G. reflexivity.
 Qed.
+
+(* ------------------------------------------------------------------ witnesses *)
+Ltac solve_wfj :=
+  unfold wfj, rect, jnobs, jnsamp, md_len, md_objs; cbn [j_oids j_sids j_mat j_omd j_smd length];
+  repeat split;
+  try reflexivity;
+  try (apply str_dup_false_NoDup; vm_compute; reflexivity);
+  repeat (constructor; try reflexivity).
+
+Lemma empty_observation_axis_loses_samples :
+  exists c tid c', wfj c /\ from_json (to_json_tree c tid) = ROk c' /\ j_sids c' <> j_sids c.
+Proof.
+  exists (mkJT [] [K "a"; K "b"] [] None None JNull (JStr (K "g")) (JStr (K "d"))), (K "None").
+  eexists. split; [solve_wfj|]. split; [vm_compute; reflexivity|discriminate].
+Qed.
+
+Lemma empty_sample_axis_unclosed : exists c, wfj c /\ writer_closes_columns c = false.
+Proof.
+  exists (mkJT [K "a"; K "b"] [] [[]; []] None None JNull (JStr (K "g")) (JStr (K "d"))).
+  split; [solve_wfj|reflexivity].
+Qed.
+
+Definition witness_table : jtable :=
+  mkJT [K "o""1"; K "o\2"] [K "s1"; K "s2"; K "s3"] [[0; 5; 0]; [-7; 0; 9]]
+       (Some [JObj [(K "k", JArr [JInt 1; JNull])]; JObj []]) None
+       (JStr (K "OTU table")) (JStr (K "gen ""by""")) (JStr (K "2020-01-02T03:04:05")).
+Lemma witness_table_ok :
+  wfj witness_table /\ (jnobs witness_table = 0 <-> jnsamp witness_table = 0)%nat
+  /\ md_normal (j_omd witness_table) /\ md_normal (j_smd witness_table).
+Proof.
+  split; [unfold witness_table; solve_wfj|].
+  split; [split; discriminate|]. split; reflexivity.
+Qed.
